@@ -20,6 +20,17 @@ CHECKS = {
     ),
 }
 
+CHECKS["C08"] = dict(
+    category="exploration",
+    technique="bounded-exhaustive enumeration of operator sequences, parenthesisations, embeddings and layouts against a precedence-climbing reference parser and reference interpreter",
+    text="All 169 pairs, 2197 triples and 28561 quadruples of the 13 binary operators, every parenthesisation the grammar can spell, "
+         "assignment right-hand sides, 11 embeddings and the layout spaces are enumerated completely; each text goes through the real "
+         "parser (tree shape) and, for pairs/triples, through compiler and VM (value on a grid that separates the groupings).",
+    note="Trusted: the 30-line precedence-climbing parser and refsem. Operands are identifiers; expressions with more than four "
+         "operators are outside the bound.",
+    ref="DESIGN.md section 4, C08",
+)
+
 PENDING = {}
 
 
